@@ -383,7 +383,11 @@ class LoopSpec:
     variant(ex)   -> optional z3 Int term that must decrease and stay >= 0
     """
 
-    def __init__(self, invariant, havoc, variant=None, name=None, on_exit=None, on_body=None):
+    def __init__(self, invariant, havoc, variant=None, name=None, on_exit=None, on_body=None, anchor=None):
+        # anchor(ast node) -> bool: what the loop this contract belongs to looks like (kind of loop, what it iterates over).  Contracts are keyed by the
+        # loop's ordinal in its function; when code is edited so that the ordinals shift (a loop inserted before), an anchored contract follows its loop and
+        # the inserted loop is executed without a contract instead of being paired with a contract written for another loop
+        self.anchor = anchor
         self.invariant = invariant
         self.havoc = havoc
         self.variant = variant
@@ -1141,10 +1145,23 @@ class Exec:
         if node is not None and self.func is not None:
             k = _loop_ordinals(self.func.node).get(id(node))
             if k is not None:
-                return k, self.interp.loop_specs.get((self.qual, k))
+                return self._anchored(k, node)
         k = self.loop_ordinal
         self.loop_ordinal += 1
-        return k, self.interp.loop_specs.get((self.qual, k))
+        return self._anchored(k, node)
+
+    def _anchored(self, k, node):
+        spec = self.interp.loop_specs.get((self.qual, k))
+        if node is None:
+            return k, spec
+        if spec is not None and (getattr(spec, "anchor", None) is None or spec.anchor(node)):
+            return k, spec
+        for (q, kk), sp_ in self.interp.loop_specs.items():
+            if q == self.qual and getattr(sp_, "anchor", None) is not None and sp_.anchor(node):
+                return kk, sp_
+        if spec is not None and getattr(spec, "anchor", None) is not None:
+            return 1000 + k, None  # a loop none of this function's contracts was written for
+        return k, spec
 
     def s_While(self, s):
         k, spec = self.next_loop_spec(s)
